@@ -28,7 +28,7 @@ func ValidateQuery(query string) (string, error) {
 			return -1 // Remove control characters except newlines and tabs
 		}
 		return r
-	}, query)
+	}, strings.ToValidUTF8(query, "?")) // invalid bytes must not grow into 3-byte U+FFFD: the result has to stay within MaxQueryLength
 
 	// Check for potentially dangerous characters after sanitization
 	dangerousChars := regexp.MustCompile(`[<>|&;$]`)
